@@ -355,7 +355,7 @@ RAMP_RELAX = ['min_down', 'min_run', 'start_flag_missing', 'off_output', 'cap', 
 RAMP_INVS = ['RunLongEnough', 'ProfilesFollowed', 'OffZero', 'HeatWithinShare']
 
 
-def fam_ramp_profiles(T=6, thorough=False):
+def fam_ramp_profiles(T=6, thorough=False, seed=0):
     out = []
     cid = 0
     srs = [[], [(1, 1)], [(1, 1), (2, 2)], [(1, 2)]]
@@ -379,6 +379,19 @@ def fam_ramp_profiles(T=6, thorough=False):
                         sr=[list(x) for x in sr], dr=[list(x) for x in dr], q=1))
     for c in out:
         c.update(heat=False, srh=[[0, 0] for _ in c['sr']], drh=[[0, 0] for _ in c['dr']])
+    # profiles given in another frequency than the grid (ramp_freq): grid step = a/b profile steps.  The SPECIFICATION converts
+    # (EAOUnitCommitRamp.Conv); values are multiples of 6 so that every converted bound is an integer (ASSUME ConversionExact); unit
+    # lattice (q = 1: a near-miss one unit outside a bound must not fall between lattice points), hence a narrow capacity range
+    rfs = [('30min', 2, 1), ('2h', 1, 2), ('40min', 3, 2), ('90min', 2, 3)] + ([('20min', 3, 1), ('3h', 1, 3), ('60min', 1, 1)] if thorough else [])
+    profs = [([(6, 6), (12, 12)], []), ([(6, 6), (12, 18), (18, 18)], []), ([], [(12, 12), (6, 6)]), ([(6, 6), (12, 12)], [(18, 18), (12, 12), (6, 6)]),
+             ([(6, 12)], [(6, 6)])]
+    for k, ((rfreq, a, b), (sr, dr), minrun) in enumerate(itertools.product(rfs, profs, (0, 2))):
+        if not thorough and (minrun == 2 and len(sr) + len(dr) > 3 or (k + k // 10 + seed) % 3):
+            continue      # quick tier: a third of the grid per seed, every frequency ratio with at least two profiles
+        cid += 1
+        out.append(dict(id=cid, T=T, d=1, lo=18, hi=19, price=[-3, 1, -2, 2, -3, 1, -1, -2][:T], minrun=minrun, mindown=0, off0=0, run0=0, startcost=1,
+                        sr=[list(x) for x in sr], dr=[list(x) for x in dr], q=1, heat=False, srh=[[0, 0] for _ in sr], drh=[[0, 0] for _ in dr],
+                        rf=[a, b], rfreq=rfreq))
     # CHP: bounds of the virtual output AND of the heat in the profile steps (both heat profiles given, as the implementation requires)
     Th = min(T, 4)
     for (sr, srh), (dr, drh), minrun, run0 in itertools.product([([(1, 2)], [(0, 1)]), ([(1, 1), (2, 3)], [(0, 0), (1, 1)])],
@@ -388,6 +401,13 @@ def fam_ramp_profiles(T=6, thorough=False):
         cid += 1
         out.append(dict(id=cid, T=Th, d=1, lo=2, hi=3, price=[-3, 1, -2, 2][:Th], minrun=minrun, mindown=0, off0=0 if run0 else 2, run0=run0, startcost=1,
                         sr=[list(x) for x in sr], dr=[list(x) for x in dr], q=1, heat=True, srh=[list(x) for x in srh], drh=[list(x) for x in drh]))
+    for (rfreq, a, b) in [('30min', 2, 1), ('2h', 1, 2)]:
+        cid += 1
+        out.append(dict(id=cid, T=Th, d=1, lo=12, hi=13, price=[-3, 1, -2, 2][:Th], minrun=0, mindown=0, off0=2, run0=0, startcost=1,
+                        sr=[[6, 6], [12, 12]], dr=[[12, 12], [6, 6]], q=1, heat=True, srh=[[0, 0], [6, 6]], drh=[[6, 6], [0, 0]], rf=[a, b], rfreq=rfreq))
+    for c in out:
+        c.setdefault('rf', [1, 1])
+        c.setdefault('rfreq', None)
     return out
 
 
@@ -400,6 +420,8 @@ class RampReal:
         kw = dict(name='PL', nodes=nodes, min_cap=float(c['lo']), max_cap=float(c['hi']), price='p', start_costs=float(c['startcost']),
                   min_runtime=c['minrun'], min_downtime=c['mindown'], time_already_off=c['off0'], time_already_running=c['run0'],
                   last_dispatch=float((c['sr'][c['run0'] - 1][0] if 0 < c['run0'] <= len(c['sr']) else c['lo']) if c['run0'] > 0 else 0))
+        if c.get('rfreq'):
+            kw.update(ramp_freq=c['rfreq'])
         if c['sr']:
             kw.update(start_ramp_lower_bounds=[float(x[0]) for x in c['sr']], start_ramp_upper_bounds=[float(x[1]) for x in c['sr']])
         if c['dr']:
@@ -437,7 +459,7 @@ class RampReal:
 def enumerate_ramp(cfgs, relax=(), name='MCramp'):
     wd = tlc.scratch()
     try:
-        defs = {'MCConfigs': '{' + ',\n   '.join(tlc.tla(c) for c in cfgs) + '}', 'MCRelax': tlc.tla(set(relax))}
+        defs = {'MCConfigs': '{' + ',\n   '.join(tlc.tla({k: v for k, v in c.items() if k != 'rfreq'}) for c in cfgs) + '}', 'MCRelax': tlc.tla(set(relax))}
         lines = ['SPECIFICATION Spec', 'CONSTANT Configs <- MCConfigs', 'CONSTANT Relax <- MCRelax', 'CONSTRAINT Emit', 'CHECK_DEADLOCK FALSE'] + ['INVARIANT ' + i for i in RAMP_INVS]
         tlc.write_mc(wd, name, 'EAOUnitCommitRamp', defs, lines)
         r = tlc.run_tlc(wd, name)
@@ -453,7 +475,7 @@ def enumerate_ramp(cfgs, relax=(), name='MCramp'):
 
 def ramp_profiles(chk, tier, seed):
     th = tier == 'thorough'
-    cfgs = fam_ramp_profiles(6 if th else 5, thorough=th)
+    cfgs = fam_ramp_profiles(6 if th else 5, thorough=th, seed=seed)
     behs, st = enumerate_ramp(cfgs)
     chk.add_tlc(st)
     if st['violated']:
@@ -462,7 +484,8 @@ def ramp_profiles(chk, tier, seed):
     negs, st2 = enumerate_ramp(cfgs if th else cfgs[seed % 2::2], relax=RAMP_RELAX, name='MCrampneg')
     chk.add_tlc(st2)
     for c in cfgs:
-        sel = dict(family='ramp_profiles', heat=c['heat'], T=c['T'], start_profile=len(c['sr']), shutdown_profile=len(c['dr']), minrun=c['minrun'], mindown=c['mindown'], off0=c['off0'], run0=c['run0'])
+        sel = dict(family='ramp_profiles', heat=c['heat'], T=c['T'], start_profile=len(c['sr']), shutdown_profile=len(c['dr']), minrun=c['minrun'], mindown=c['mindown'], off0=c['off0'], run0=c['run0'],
+                   ramp_freq=c.get('rfreq') or 'grid')
         try:
             real = RampReal(c)
         except Exception as e:
